@@ -15,12 +15,15 @@ from vlib.mc import seq
 PROPERTY = 'C13'
 LEVEL = 'model_checking'
 ENGINE = 'B'
-LEVEL_TEXT = ('Every sequence of StopWatch calls up to the stated depth, under '
-              'every pattern of clock steps from the alphabet (including a '
-              'clock that goes backwards) and every duration in the list, is '
-              'executed on the real class and compared step by step (return '
-              'value or RuntimeError, and resulting state) with a reference '
-              'stopwatch; the bound is on sequence length only.')
+LEVEL_TEXT = ('Every sequence of StopWatch calls up to the stated depth, under every pattern '
+'of clock steps from the alphabet (including a clock that goes backwards) and '
+'every duration in the list, is executed on the real class and compared step by '
+'step (return value or RuntimeError, and resulting state observed on a copy) '
+'with a reference stopwatch; additional searches use clock origins 0 and -2, '
+'fractional readings, a second watch in use, a clock function replaced before '
+'every call, a clock that advances on every reading, an installed utcnow '
+'override, and a watch sent through pickle between calls; the bound is on '
+'sequence length only.')
 LEVEL_NOTE = ('Trusted: the reference stopwatch (vlib/checks/c13.py RefWatch), '
               'that timeutils.now is the only clock read, and that translation '
               'in time is a symmetry for integer readings. Sequences longer '
